@@ -18,6 +18,7 @@ def genC : Cert where
   bound := measureBound
   lowMod := lowBitMod
   lowTab := ⟨lowBitTable, lowBitMod⟩
+  rhsTop := prodRhsTop
 
 theorem gen_check : check genP genC = true := by decide +kernel
 
